@@ -38,11 +38,14 @@ def shards(tier, seed):
     out = []
     full = 5 if tier == 'quick' else 6
     # lengths 0..2 in one shard, then one shard per 2-char prefix for each longer length
-    out.append({'sub': 'full', 'alpha': 'S23', 'prefix': '', 'lens': [0, 1, 2], 'bounds': f'all strings of length <= {full} over 23 chars'})
-    for a in SIGMA:
-        for b in SIGMA:
-            out.append({'sub': 'full', 'alpha': 'S23', 'prefix': a + b, 'lens': list(range(1, full - 1)),
-                        'bounds': f'all strings of length <= {full} over 23 chars'})
+    out.append({'sub': 'full', 'alpha': 'S23', 'prefix': '', 'lens': [0, 1, 2], 'bounds': ''})
+    for i, a in enumerate(SIGMA):
+        for j, b in enumerate(SIGMA):
+            lens = list(range(1, full - 1))
+            if tier == 'quick' and (i + j + seed) % 3 == 0:
+                lens = lens[:-1]      # quick: two thirds of the length-5 prefix blocks, rotating with VERIF_SEED
+            out.append({'sub': 'full', 'alpha': 'S23', 'prefix': a + b, 'lens': lens,
+                        'bounds': f'all strings of length <= {full - 1 if tier == "quick" else full} over 23 chars' + ('; length 5: two thirds of the 529 prefix blocks, chosen by VERIF_SEED (each block exhaustive)' if tier == 'quick' else '')})
     if tier == 'quick':
         # rotating block of the length-6 space: 2 of the 529 two-character prefixes
         k = len(SIGMA) ** 2
@@ -62,6 +65,8 @@ def shards(tier, seed):
         for a in SIGMA8:
             for b in SIGMA8:
                 out.append({'sub': 'len8_8', 'alpha': 'S8', 'prefix': a + b, 'lens': [5, 6], 'bounds': 'all strings of length 7-8 over 8 chars (alignment/string/escape characters)'})
+    # largest shards first (better packing on the worker pool); results are merged by shard index anyway
+    out.sort(key=lambda s: -max(s['lens']) * 100 - len(_ALPHA[s['alpha']]))
     return out
 
 
